@@ -925,3 +925,53 @@ func c07RankInjective(c *Ctx) {
 	c.R.Cond(mono, rule, core.FuncName(order)+": classes are tested in rank order", c.P.Pos(order.Pos()),
 		strings.Join(ts, " < "), "Order tests the first operand's class in the order "+strings.Join(ts, ", ")+", which is not increasing in typeIndex rank: a normalised pair can reach a branch that assumes the opposite order")
 }
+
+// ---- C07.scan-by-order: rows are located by the comparator, never by the layer hash, when reading ------
+
+func init() {
+	register(&Rule{Name: "C07.scan-by-order", Min: 1, Run: c07ScanByOrder,
+		Doc: "Cursor.Filter / Next locate rows with the ordered tree cursor only; they never use the point lookup (getRow / DB.Get), which descends by the key's layer hash"})
+	byProp["C07"] = append(byProp["C07"], "C07.scan-by-order")
+	byProp["C06"] = append(byProp["C06"], "C07.scan-by-order")
+	explain["C07"] += " scan-by-order: mast's Get goes to Layer(key) and reports 'absent' unless the key sits exactly there, while the cursor walks by Order only; because Order equates an INTEGER and the REAL of the same value but Layer does not (the recorded finding), a WHERE key = 2.0 answered by a point lookup misses the stored integer 2 — and echoes the lookup value as the key. The read path (Filter, Next and the helpers split out of them) contains no call of getRow or (*kv.DB).Get."
+}
+
+func c07ScanByOrder(c *Ctx) {
+	const rule = "C07.scan-by-order"
+	getRow := mustFunc(c, "", "", "getRow")
+	if getRow == nil {
+		return
+	}
+	for _, m := range []string{"Filter", "Next"} {
+		fn := mustFunc(c, "", "*Cursor", m)
+		if fn == nil {
+			continue
+		}
+		name := core.FuncName(fn)
+		bad := ""
+		// the function, its single-caller helpers, and (one level) any same-package callee
+		seen := map[*ssa.Function]bool{}
+		work := append([]*ssa.Function{}, c.Scope(fn).Funcs...)
+		for len(work) > 0 {
+			f := work[len(work)-1]
+			work = work[:len(work)-1]
+			if seen[f] {
+				continue
+			}
+			seen[f] = true
+			for _, call := range an.Calls(f) {
+				cal := call.Common().StaticCallee()
+				if cal == getRow || an.CalleeIs(call, kvPkg, "DB", "Get") {
+					bad = core.FuncName(f) + " at " + c.P.Pos(call.Pos())
+				}
+				if cal != nil && an.PkgPathOf(cal) == core.ModPath && len(cal.Blocks) > 0 && cal != fn && cal.Name() != "Next" && len(seen) < 12 {
+					if m == "Filter" && cal.Signature.Recv() != nil && strings.Contains(cal.Signature.Recv().Type().String(), "Cursor") {
+						work = append(work, cal)
+					}
+				}
+			}
+		}
+		c.R.Cond(bad == "", rule, name+": no point lookup on the read path", c.P.Pos(fn.Pos()), "rows are found with the ordered cursor only",
+			"the read path calls the point lookup in "+bad+": it descends by Key.Layer, so a key that compares equal but hashes to another layer (WHERE a = 2.0 for the stored integer 2) is reported absent on a multi-level tree, and on a flat tree the lookup value is returned as the key")
+	}
+}
